@@ -1,5 +1,7 @@
 mod cli;
+mod e3;
 mod explore;
+mod hashorder;
 mod extract;
 mod selfcheck;
 mod pipeline;
@@ -55,6 +57,7 @@ fn main() {
         "C03" => props::c03::run(rest),
         "C04" => props::c04::run(rest),
         "C05" => props::c05::run(rest),
+        "C06" => props::c06::run(rest),
         "C07" => props::c07::run(rest),
         "C08" => props::c08::run(rest),
         "C09" => props::c09::run(rest),
